@@ -164,6 +164,26 @@ func VerifC11Range() {
 		want += vItoa(lo+k) + "," + vItoa(k+1) + "/" + vItoa(span+1) + ";"
 	}
 	nd.Assert(out == want, "range-reference")
+	// a range is evaluated each time it is reached: endpoints that change between evaluations
+	// (an inner loop over the outer loop's variable; the same parsed template with other bindings)
+	e := NewEngine()
+	tpl, perr := e.ParseString("{% for i in (lo..hi) %}{% for j in (lo..i) %}{{ j }}{% endfor %};{% endfor %}")
+	nd.Assert(perr == nil, "nested-range-parses")
+	if perr == nil {
+		for _, d := range []int{0, 1} {
+			l2, h2 := lo+d, hi-d
+			got, rerr := tpl.RenderString(Bindings{"lo": l2, "hi": h2})
+			nd.Assert(rerr == nil, "nested-range-no-error")
+			w2 := ""
+			for i := l2; i <= h2; i++ {
+				for j := l2; j <= i; j++ {
+					w2 += vItoa(j)
+				}
+				w2 += ";"
+			}
+			nd.Assert(got == w2, "range-re-evaluated-each-time")
+		}
+	}
 	nd.Reach("C11.range")
 }
 
